@@ -138,7 +138,7 @@ var c06Quick = []Mix{
 	{Gen: "phrases", N: 0},
 	{Gen: "special5", N: 0},
 	{Gen: "tokseq", N: 3},
-	{Gen: "scale1", N: 288 << 10}, {Gen: "nulpad"},
+	{Gen: "scale1", N: 288 << 10}, {Gen: "seam"}, {Gen: "nulpad"}, {Gen: "wrapcount"}, {Gen: "foldalias"}, {Gen: "qualified"}, {Gen: "gluelit"},
 }
 
 var c06Thorough = []Mix{
@@ -156,7 +156,7 @@ var c06Thorough = []Mix{
 	{Gen: "phrases", N: 1},
 	{Gen: "special5", N: 1},
 	{Gen: "tokseq", N: 5},
-	{Gen: "scale1", N: 288 << 10}, {Gen: "scale", N: 70000}, {Gen: "nulpad"},
+	{Gen: "scale1", N: 288 << 10}, {Gen: "scale", N: 70000}, {Gen: "seam", N: 1}, {Gen: "nulpad"}, {Gen: "wrapcount"}, {Gen: "foldalias"}, {Gen: "qualified"}, {Gen: "gluelit"},
 }
 
 // C06 — SQLi pipeline conforms to the reference algorithm.
@@ -224,7 +224,7 @@ func c06() *core.Check {
 		},
 		One: func(w *core.Worker, c core.Case) {
 			s := c.In
-			if len(s) > 1<<19 {
+			if len(s) > 1<<19 && c.Kind != "seam" {
 				return
 			}
 			w.Eval(1)
